@@ -120,6 +120,10 @@ class Interp:
         self.w.op("cbrel", a)
         return self.w.cb_release(a)
 
+    def cb_cancel(self, a):
+        self.w.op("cbcancel", a)
+        return self.w.cb_cancel(a)
+
     # ------------------------------------------------------------ cancellation
     def cancel(self, *ids):
         self.w.op("cancel", *ids)
@@ -247,6 +251,8 @@ def act(it, name, a):
         it.fail(a)
     elif name == "cbrel":
         it.cb_release(a)
+    elif name == "cbcancel":
+        it.cb_cancel(a)
     elif name == "cancel":
         it.cancel(a)
     elif name == "cancel2":
